@@ -24,6 +24,7 @@ package main
 
 import (
 	_ "embed"
+	"go/types"
 	"os"
 	"path/filepath"
 	"sort"
@@ -35,15 +36,145 @@ import (
 //go:embed baseline_funcs.txt
 var baselineFuncsTxt string
 
-var baselineFuncs = func() map[string]bool {
-	m := map[string]bool{}
+// baselineFuncs: name -> signature (without receiver) of every named function
+// of the baseline tree.
+var baselineFuncs = func() map[string]string {
+	m := map[string]string{}
 	for _, l := range strings.Split(baselineFuncsTxt, "\n") {
 		if l = strings.TrimSpace(l); l != "" && !strings.HasPrefix(l, "#") {
-			m[l] = true
+			name, rest, _ := strings.Cut(l, "\t")
+			m[name] = rest // signature \t configurations in which the function exists
 		}
 	}
 	return m
 }()
+
+func inBaseline(key string) bool { _, ok := baselineFuncs[key]; return ok }
+
+func sigKey(f *ssa.Function) string {
+	return types.TypeString(types.NewSignatureType(nil, nil, nil, f.Signature.Params(), f.Signature.Results(), f.Signature.Variadic()), nil)
+}
+
+// Renamed anchors. A baseline function that no longer exists, when exactly one
+// new function of the same package, receiver and signature exists (and it is
+// the only baseline function of that receiver and signature that disappeared), was
+// renamed: the new function answers to the old name (lookups, descriptions,
+// callee names). If the guess is wrong the rules written for the old function
+// fail on the new one - which is what an unresolved anchor does anyway.
+var aliasOld = map[*ssa.Function]string{}
+
+func aliasName(f *ssa.Function) string {
+	if len(aliasOld) > 0 {
+		if a, ok := aliasOld[f]; ok {
+			return a
+		}
+	}
+	return f.Name()
+}
+
+// aliasString rewrites the new name to the old one in f.String()-style text.
+func aliasString(f *ssa.Function, s string) string {
+	if len(aliasOld) == 0 {
+		return s
+	}
+	root := f
+	for root.Parent() != nil {
+		root = root.Parent()
+	}
+	old, ok := aliasOld[root]
+	if !ok {
+		return s
+	}
+	if i := strings.LastIndex(s, "."+root.Name()); i >= 0 {
+		rest := s[i+1+len(root.Name()):]
+		if rest == "" || rest[0] == '$' {
+			return s[:i+1] + old + rest
+		}
+	}
+	return s
+}
+
+func recvTypeName(f *ssa.Function) string {
+	r := f.Signature.Recv()
+	if r == nil {
+		return ""
+	}
+	t := r.Type()
+	if pt, ok := t.(*types.Pointer); ok {
+		t = pt.Elem()
+	}
+	if n, ok := t.(*types.Named); ok {
+		return n.Obj().Name()
+	}
+	return "?"
+}
+
+func aliasLookup(pkgPath, recv, name string) *ssa.Function {
+	for f, old := range aliasOld {
+		if old == name && funcPkgPath(f) == pkgPath && recvTypeName(f) == recv {
+			return f
+		}
+	}
+	return nil
+}
+
+// indexRenames pairs vanished baseline functions with new functions.
+func (p *Prog) indexRenames(newFuncs []*ssa.Function) map[*ssa.Function]bool {
+	renamed := map[*ssa.Function]bool{}
+	if len(newFuncs) == 0 {
+		return renamed
+	}
+	present := map[string]bool{}
+	for f := range p.AllFuncs() {
+		if inModule(f) && f.Parent() == nil && f.Synthetic == "" {
+			present[baselineKey(f)] = true
+		}
+	}
+	// group key: everything of the name but the last component, plus the signature
+	group := func(key, sig string) (string, string) {
+		i := strings.LastIndex(key, ".")
+		return key[:i] + "|" + sig, key[i+1:]
+	}
+	// only packages that are loaded in this configuration can lose functions
+	loaded := map[string]bool{}
+	for _, pk := range p.Pkgs {
+		loaded[strings.TrimPrefix(pk.PkgPath, modPath+"/")] = true
+	}
+	pkgOfKey := func(key string) string {
+		k := strings.TrimLeft(key, "(*")
+		if i := strings.LastIndex(k, "/"); i >= 0 {
+			if j := strings.Index(k[i:], "."); j >= 0 {
+				return k[:i+j]
+			}
+		}
+		if j := strings.Index(k, "."); j >= 0 {
+			return k[:j]
+		}
+		return k
+	}
+	gone := map[string][]string{}
+	cfgName := p.Cfg.GOOS + "/" + p.Cfg.GOARCH
+	for key, rest := range baselineFuncs {
+		sig, cfgs, _ := strings.Cut(rest, "\t")
+		if present[key] || !loaded[pkgOfKey(key)] || !strings.Contains(","+cfgs+",", ","+cfgName+",") {
+			continue
+		}
+		g, name := group(key, sig)
+		gone[g] = append(gone[g], name)
+	}
+	fresh := map[string][]*ssa.Function{}
+	for _, f := range newFuncs {
+		g, _ := group(baselineKey(f), sigKey(f))
+		fresh[g] = append(fresh[g], f)
+	}
+	for g, names := range gone {
+		if len(names) == 1 && len(fresh[g]) == 1 {
+			aliasOld[fresh[g][0]] = names[0]
+			renamed[fresh[g][0]] = true
+		}
+	}
+	return renamed
+}
 
 // inlineDisabled switches the whole mechanism off (-noinline, for comparison).
 var inlineDisabled bool
@@ -130,13 +261,20 @@ func (p *Prog) indexHelpers() {
 		if !inModule(f) || f.Blocks == nil || f.Parent() != nil || f.Synthetic != "" {
 			continue
 		}
-		if f.Name() == "init" || f.Name() == "main" || baselineFuncs[baselineKey(f)] {
+		if f.Name() == "init" || f.Name() == "main" || inBaseline(baselineKey(f)) {
 			continue
 		}
 		cand[f] = &helperInfo{}
 	}
 	if len(cand) == 0 {
 		return
+	}
+	var fresh []*ssa.Function
+	for f := range cand {
+		fresh = append(fresh, f)
+	}
+	for f := range p.indexRenames(fresh) {
+		delete(cand, f) // a renamed baseline function is not a helper
 	}
 	// every use must be a plain static call from a function with a body
 	bad := map[*ssa.Function]bool{}
@@ -313,8 +451,8 @@ func eachInstrDeep(fn *ssa.Function, f func(ssa.Instruction), done map[*ssa.Func
 // writeBaseline records the named functions of the current tree (all the
 // configurations the properties are checked for).
 func writeBaseline() error {
-	names := map[string]bool{}
-	for _, cfg := range []LoadCfg{{GOOS: "linux", GOARCH: "amd64"}, {GOOS: "windows", GOARCH: "amd64"}, {GOOS: "linux", GOARCH: "arm"}, {GOOS: "darwin", GOARCH: "arm64"}} {
+	names := map[string][]string{}
+	for _, cfg := range []LoadCfg{{GOOS: "linux", GOARCH: "amd64"}, {GOOS: "windows", GOARCH: "amd64"}, {GOOS: "linux", GOARCH: "arm"}, {GOOS: "darwin", GOARCH: "arm64"}, {GOOS: "linux", GOARCH: "386"}, {GOOS: "linux", GOARCH: "arm64"}} {
 		inlineDisabled = true
 		p, err := Load(cfg)
 		if err != nil {
@@ -322,16 +460,17 @@ func writeBaseline() error {
 		}
 		for f := range p.AllFuncs() {
 			if inModule(f) && f.Parent() == nil && f.Synthetic == "" {
-				names[baselineKey(f)] = true
+				k := baselineKey(f) + "\t" + sigKey(f)
+				names[k] = append(names[k], cfg.GOOS+"/"+cfg.GOARCH)
 			}
 		}
 	}
 	var out []string
-	for n := range names {
-		out = append(out, n)
+	for n, cfgs := range names {
+		out = append(out, n+"\t"+strings.Join(cfgs, ","))
 	}
 	sort.Strings(out)
-	hdr := "# functions of the tree the rules were confirmed on; a function not listed here that is only called statically is analysed as part of its callers (inline.go)\n"
+	hdr := "# name <TAB> signature <TAB> configurations: the named functions of the tree the rules were confirmed on. A function not listed here that is only called statically is analysed as part of its callers; a listed function that vanished while one new function of the same receiver and signature appeared is taken as renamed (inline.go)\n"
 	return os.WriteFile(filepath.Join(verifDir, "checker", "baseline_funcs.txt"), []byte(hdr+strings.Join(out, "\n")+"\n"), 0o644)
 }
 
